@@ -65,6 +65,16 @@ def params_flush(ck, P):
     gs = [s for s, lvl in _sig.backward_guards(pm, fl[0].bb, depth=4)]
     has_strategy = any(s.rel == "Ne" and "strategy" in s.names for s in gs)
     has_func = any(s.rel in ("Ne",) and "func" in s.names for s in gs) or any(s.rel == "Ne" and "CONFIGURATION_TABLE" in s.names for s in gs)
+    # a guard on a named boolean (`let changed = a || b; if changed && ..`): its definitions are the guards
+    for g in list(gs):
+        if g.kind == "truth" and isinstance(g.atom[1], tuple) and g.atom[1][0] == "v":
+            for bi, si, rv in pm.defs.get(g.atom[1][1], []):
+                if rv is None or bi not in pm.live:
+                    continue
+                for a in mir.bool_atoms(pm, pm.rvalue_expr(rv), True):
+                    gs.append(_sig.sig(a, pm))
+    has_strategy = has_strategy or any(s.rel == "Ne" and "strategy" in s.names for s in gs)
+    has_func = has_func or any(s.rel in ("Ne",) and "func" in s.names for s in gs) or any(s.rel == "Ne" and "CONFIGURATION_TABLE" in s.names for s in gs)
     has_first = any(s.rel == "Ne" and "last_flush" in s.names and -2 in s.consts for s in gs)
     ck.decide(has_strategy, R, "params:strategy-change", "flush when the strategy changes",
               "deflateParams no longer flushes the open block when only the strategy changes: algorithm::run then continues the block with a different "
